@@ -31,6 +31,10 @@ type Step struct {
 	Of     int           `json:"of,omitempty"`
 	Recs   [][]ref.Value `json:"recs,omitempty"`
 	Path   int           `json:"path"`
+	// BadAt > 0 (data sets of >= 2 records): record BadAt-1 (never the first) is offered with one
+	// field fewer than the template. The library is expected to refuse the set (C09 judges that);
+	// here only the wire counts: if anything is transmitted it must still be well-formed.
+	BadAt int `json:"bad_at,omitempty"`
 }
 
 // Case is a session of one exporting process.
@@ -126,6 +130,39 @@ func runCase(c Case) *ev.Failure {
 				return ev.Failf("step %d: building the data set failed: %v", i, err)
 			}
 			want = ref.DataMessage(h, ref.Template{ID: tp.ID, Fields: tp.Fields}, s.Recs)
+			if s.BadAt > 0 && !c.Reuse && len(s.Recs) >= 2 && len(tp.Fields) >= 2 {
+				k := 1 + (s.BadAt-1)%(len(s.Recs)-1)
+				short := tp.Fields[:len(tp.Fields)-1]
+				bad, berr := exph.DataSet(tp.ID, tp.Fields, s.Recs[:k], s.Path)
+				if berr == nil {
+					els := exph.Elements(short, s.Recs[k][:len(short)])
+					if s.Path == exph.PathV2 {
+						berr = bad.AddRecordV2(els, tp.ID)
+					} else {
+						berr = bad.AddRecord(els, tp.ID)
+					}
+				}
+				if berr == nil {
+					if nb, err := ep.SendSet(bad); err == nil {
+						// transmitted (C09 judges that it should not have been): it is on the wire in
+						// front of the good set and must at least be well-formed under the template
+						sent++
+						total += nb
+						peer.WaitMessages(sent, total, waitLimit)
+						msgs, rest := peer.Messages()
+						if len(rest) != 0 || len(msgs) != sent {
+							return ev.Failf("step %d: after a data set with a short record %d was transmitted the wire holds %d framed messages and %d stray bytes, %d sends succeeded", i, k, len(msgs), len(rest), sent)
+						}
+						_, sets, perr := ref.ParseMessage(msgs[sent-1])
+						if perr != nil || len(sets) != 1 {
+							return ev.Failf("step %d: a data set whose record %d has %d fields (template %d has %d) was transmitted and is not a well-formed message: %v", i, k, len(short), tp.ID, len(tp.Fields), perr)
+						}
+						if r := ref.ParseDataSet(tp.Fields, sets[0].Body); r.Malformed || len(r.Records) != k+1 {
+							return ev.Failf("step %d: a data set whose record %d has %d fields (template %d has %d) was transmitted: its %d-byte body is not %d records of the template (%d parsed; %s)", i, k, len(short), tp.ID, len(tp.Fields), len(sets[0].Body), k+1, len(r.Records), r.Why)
+						}
+					}
+				}
+			}
 			if n, err = ep.SendSet(set); err != nil {
 				return ev.Failf("step %d: SendSet(data for template %d, %d records, %d bytes) failed: %v", i, tp.ID, len(s.Recs), len(want), err)
 			}
@@ -445,6 +482,9 @@ func genCase(t *rapid.T) Case {
 		}
 		if len(s.Recs) == 0 {
 			continue
+		}
+		if len(s.Recs) >= 2 && rapid.IntRange(0, 5).Draw(t, "bad") == 0 {
+			s.BadAt = rapid.IntRange(1, len(s.Recs)).Draw(t, "bad_at")
 		}
 		c.Steps = append(c.Steps, s)
 	}
